@@ -265,9 +265,7 @@ Begin(w, i) ==
      IN /\ tbl' = [tbl EXCEPT ![i].st = "prog"]
         /\ wk' = [wk EXCEPT ![w] =
              IF ~ImplVerdict(sc, rec) THEN [IdleW EXCEPT !.pc = "fin", !.i = i, !.st = "skipped"]
-             \* glob URL: list its directory, keep the pattern.  (A URL made from a listing entry has the entry's name
-             \* percent-encoded: its "*", "?", "[" stand for themselves.)
-             ELSE IF sc.opt.glob /\ HasGlob(nm) /\ rec.lt = "none"
+             ELSE IF sc.opt.glob /\ HasGlob(nm)                       \* glob URL: list its directory, keep the pattern
                THEN [IdleW EXCEPT !.pc = "fetch", !.i = i, !.rp = Par(u.p), !.rslash = TRUE, !.pat = nm]
              ELSE IF rec.lt # "none"                                  \* from a listing: the type is known
                THEN [IdleW EXCEPT !.pc = "fetch", !.i = i, !.rp = u.p, !.rslash = u.slash, !.isfile = (rec.lt = "file")]
@@ -346,7 +344,7 @@ CmdKindsOK  == \A c \in cmds : KindOK(ref, c.c, c.p)
 RecordsSound ==
   \A i \in 1..Len(tbl) :
     LET rec == tbl[i] IN
-    (rec.lt # "none" /\ ImplVerdict(sc, [rec EXCEPT !.tries = 0]))
+    (rec.lt # "none" /\ ImplVerdict(sc, [rec EXCEPT !.tries = 0]) /\ ~(sc.opt.glob /\ HasGlob(UName(rec.u))))
       => IF rec.lt = "file" THEN rec.u.p \in ref.mr ELSE rec.u.p \in ref.ml
 TypeOK ==
   /\ \A i \in 1..Len(tbl) : tbl[i].st \in {"todo", "prog", "done", "skipped", "error"} /\ tbl[i].lvl \in 0..40
